@@ -173,7 +173,11 @@ enumerated; this section only records where the build differs from the design.
   until the next write if the last flush is younger than 20 ms): with a publisher that goes quiet the tail is not
   delivered until it speaks again - by design, handled by a trailer in the driver and stated as an assumption.
 * **C05** `Registry.tla` is a sequential reference model (histories) rather than a step model; the races are in
-  `RegistRace.tla`. HLS access ("recent" by instants) was added after seed C05-3.
+  `RegistRace.tla`. HLS access ("recent" by instants) was added after seed C05-3. A free-running leg looks the path
+  up from three goroutines while a retired stream is unregistered (after seed C05-5).
+* **C03** additionally has a converter leg: `ConvLoop.tla` (loop / Close protocol of the three conversion goroutines,
+  bare signal as negative control) and the schedule "Close between the loop condition and Pop" forced on the real
+  converters through the hook `conv.loop` - a genuine defect, fixed in 2c6d1fe.
 * **C06** as designed plus sender-report leg, sequence wrap placed inside plans, RTP time 0 and 2^32 crossing.
 * **C07** `Contain.tla` models stage-wise recovery (item / once / none) instead of a per-fault-class liveness
   model; the fault space is in `FaultCases.tla` / `HostileCases.tla`; level is `model_checking` (the design said
@@ -186,6 +190,9 @@ enumerated; this section only records where the build differs from the design.
   in every run), the server-level leg compares HTTP bytes with a synchronous reference run.
 * **C11** reference monitor + ten entry points (WSP added late: control + data socket, and a leg that joins a data
   socket to another user's channel using ids derived from the attacker's own - a genuine defect, fixed in b6695a6).
+  Further legs added with the second round of seeds: a WebSocket opened on a segment-shaped URL, a last path segment
+  '..' under a single-level-wildcard right, WSP sockets opened under a right that is narrowed before PLAY, paths
+  percent-encoded twice; `WspJoin.tla` is the design model of the channel pairing (two negative controls).
 * **C12, C13** as designed; the buffered flush is modelled in `BufferedWrite.tla` (added late), the flush gate is in the harness.
 * **C14** `Wire` became `WireReader` (design model) + `WireCases` / `WireFaults` / `RtspWire`; the dispatcher is reached through a verif-only
   export.
@@ -246,6 +253,8 @@ counterexample that did not reproduce) - never a verdict.
   covered by model drift.
 * C10-1 (a lock narrowed around the segment lookup) is caught by real HTTP concurrency, i.e. probabilistically; a
   gate inside `Playlist.Segment` would make it deterministic and was not added.
+* Pool aliasing between goroutines (seeds C13-5, C01-6) is not caught: it needs two goroutines to receive the same pooled
+  buffer, which the checks neither force (no gate between encode and write) nor observe reliably.
 * Memory allocated while parsing arbitrary bytes (e.g. a VPS announcing 65535 HRD structures) is observed nowhere.
 * A sender report with an arbitrary clock re-bases presentation times (C06 known finding); HLS then stops cutting
   segments until the time line passes the old position again. This interaction is documented, not checked.
